@@ -90,7 +90,13 @@ def gen_case(seed):
         if op[0] in VERBS and rnd.random() < 0.12:
             cur = "v" if cur == "u" else "u"
             out.append(["USER", cur])
-            out.append(list(op))
+            if cur == "v":
+                out.append(["PASS", "pv"])  # v has a password: its login completes in PASS
+            if op[0] == "RNFR" and rnd.random() < 0.6:
+                # a rename begun under the previous login must not be completed under this one
+                out.append(["RNTO", rnd.choice(["moved", "/moved", "d1/moved"])])
+            else:
+                out.append(list(op))
     return {"seed": seed, "base": base, "base2": base2, "home": home, "ops": out}
 
 
@@ -109,7 +115,7 @@ def run_case(case):
         base2 = None  # with base "/" there is no room for a second, disjoint base directory
     ulist = [{"login": "u", "base_path": base, "home_path": home}]
     if base2:
-        ulist.append({"login": "v", "base_path": base2, "home_path": "/"})
+        ulist.append({"login": "v", "password": "pv", "base_path": base2, "home_path": "/"})
     sc = {"seed": case["seed"], "server": {"block_size": 16, "wait_future_timeout": 5.0, "users": ulist}, "net": net, "fs": {"delay": None}}
     viol = []
     info = {"calls_checked": 0, "escape_attempts": 0}
@@ -135,7 +141,7 @@ def run_case(case):
         if base2:
             bases["v"] = real_of(base2, "/")
             trees["v"] = dict(vt2)
-            mus.append(M.UserSpec("v", None, home="/"))
+            mus.append(M.UserSpec("v", "pv", home="/"))
         sess = M.Session(mus, trees["u"])
         peer = RawPeer(world, "s0", reply_timeout=100.0)
         initial_outside = None
@@ -212,7 +218,7 @@ def run_case(case):
             info["steps"] = steps
             peer.close()
             await asyncio.sleep(1)
-            await asyncio.wait_for(server.close(), 1e4)
+            await common.close_server(server)
 
         initial_outside = []
         world.run(main())
